@@ -3,6 +3,7 @@ package bulk
 import (
 	"context"
 
+	"github.com/cep21/circuit/v3"
 	"google.golang.org/grpc"
 	"google.golang.org/protobuf/types/known/emptypb"
 
@@ -50,6 +51,15 @@ func (c *vClient) Bulk(_ context.Context, in *storeapi.BulkRequest, _ ...grpc.Ca
 	}
 	return nil, vErr{"store refused"}
 }
+
+// vCircuitErr is the error cep21/circuit returns when it refuses to run the callback.
+type vCircuitErr struct{ open bool }
+
+func (e vCircuitErr) Error() string                 { return "circuit refused the call" }
+func (e vCircuitErr) CircuitOpen() bool             { return e.open }
+func (e vCircuitErr) ConcurrencyLimitReached() bool { return !e.open }
+
+var _ circuit.Error = vCircuitErr{}
 
 func vShuffle(n int) []int {
 	vW.shuffles++
@@ -107,8 +117,8 @@ func VerifReplicaSets() {
 	util.VerifShuffle = vShuffle
 	circuitbreaker.VerifCircuitExecute = func(ctx context.Context, run func(context.Context) error) error {
 		vW.execs++
-		if rt.NondetBool() { // open, throttled or rejected: the callback is not run
-			return vErr{"circuit is open"}
+		if rt.NondetBool() { // open or throttled: the callback is not run and a circuit.Error of that kind comes back
+			return vCircuitErr{open: rt.Choose(2) == 0}
 		}
 		return run(ctx) // closed / half-open / timed out: the callback's own result comes back
 	}
